@@ -719,6 +719,15 @@ func (s *Server) netServe() error {
 								var rwc io.ReadWriteCloser = conn
 								client.conn = rwc
 								if len(client.out) > 0 {
+									if s.aofdirty.Load() {
+										func() {
+											// prewrite
+											s.mu.Lock()
+											defer s.mu.Unlock()
+											s.flushAOF(false)
+											s.aofdirty.Store(false)
+										}()
+									}
 									client.conn.Write(client.out)
 									client.out = nil
 								}
